@@ -107,6 +107,13 @@ func c08LateSitIn(c *h.Ctx) {
 		return
 	}
 	gc0 := s.TE.GetTable().State.GameCount
+	for _, ps := range hd.Settled.T.State.PlayerStates {
+		if ps.IsParticipated && ps.Bankroll == 0 {
+			// somebody busted in the first hand: the late player could not make a second live player; nothing to judge
+			c.Feature("late-sit-in:skipped-after-bust")
+			return
+		}
+	}
 	leaver := two.Players[r.Intn(2)].ID
 	s.Leave(leaver)
 	ss.SignalPending(nil) // the leaver's signal is refused: the gate fires by its 2 s timeout
